@@ -15,6 +15,7 @@
 """Helps nanoemoji build svg fonts."""
 
 import dataclasses
+import math
 from io import BytesIO
 from itertools import groupby
 from fontTools import ttLib
@@ -183,6 +184,27 @@ def _svg_matrix(transform: Affine2D) -> str:
     return transform.round(_DEFAULT_ROUND_NDIGITS).tostring()
 
 
+def _round_gradient_transform(transform: Affine2D) -> Affine2D:
+    # The scale/skew terms multiply gradient coordinates, which get large when a term
+    # is small (e.g. an ellipse squashed 35:1), so a fixed number of decimals is not
+    # enough for them: keep at least as many significant digits.
+    def _round(v: float) -> float:
+        ndigits = _DEFAULT_ROUND_NDIGITS
+        if v:
+            ndigits = max(ndigits, ndigits - 1 - math.floor(math.log10(abs(v))))
+        return round(v, ndigits)
+
+    a, b, c, d, e, f = transform
+    return Affine2D(
+        _round(a),
+        _round(b),
+        _round(c),
+        _round(d),
+        round(e, _DEFAULT_ROUND_NDIGITS),
+        round(f, _DEFAULT_ROUND_NDIGITS),
+    )
+
+
 def _apply_solid_paint(el: etree.Element, paint: PaintSolid):
     if etree.QName(el.tag).localname == "g":
         assert paint.color.opaque() == Color.fromstring(
@@ -217,7 +239,7 @@ def _apply_gradient_paint(
                 transform, paint = paint.gettransform(), paint.paint
         paint = cast(_GradientPaint, paint)
         paint = paint.round(_DEFAULT_ROUND_NDIGITS)
-        transform = transform.round(_DEFAULT_ROUND_NDIGITS)
+        transform = _round_gradient_transform(transform)
         reuse_key = GradientReuseKey(paint, transform)
 
         grad_id = reuse_cache.gradient_ids.get(reuse_key)
@@ -256,7 +278,7 @@ def _apply_gradient_common_parts(
     if paint.extend != Extend.PAD:
         gradient.attrib["spreadMethod"] = paint.extend.name.lower()
 
-    transform = transform.round(_DEFAULT_ROUND_NDIGITS)
+    transform = _round_gradient_transform(transform)
     if transform != Affine2D.identity():
         # Safari has a bug which makes it reject a gradient if gradientTransform
         # contains an 'involutory matrix' (i.e. matrix whose inverse equals itself,
